@@ -115,21 +115,6 @@ impl Indexer {
 
     #[cfg_attr(
         feature = "tracing",
-        fastrace::trace(name = "foyer::storage::block::indexer::remove")
-    )]
-    pub fn remove(&self, hash: u64) -> Option<EntryAddress> {
-        let shard = self.shard(hash);
-        match self.shards[shard].write().entry(hash) {
-            Entry::Occupied(o) => match o.get() {
-                Index::Address(_) => self.extract_address(o.remove()),
-                Index::Tombstone(_) => None,
-            },
-            Entry::Vacant(_) => None,
-        }
-    }
-
-    #[cfg_attr(
-        feature = "tracing",
         fastrace::trace(name = "foyer::storage::block::indexer::remove_batch")
     )]
     pub fn remove_batch<I>(&self, batch: I) -> Vec<EntryAddress>
